@@ -116,6 +116,8 @@ structure Event where
   hist : List (XR × XR)
   uniq : List Int
   tags : List TagIn
+  /-- sharding.Shard's result for ShardByTagsHash on this event's mapped key (xxh3 is external: observed value) -/
+  hashShard : Nat := 0
 deriving DecidableEq, Repr
 
 def bothSet (e : Event) : Bool := (e.values.length + e.hist.length != 0) && (e.uniq.length != 0)
@@ -513,5 +515,22 @@ def verdict (cfg : Cfg) (e : Event) : Int :=
   if !e.hasMeta then (header cfg.mapping e).status
   else if !shardOk cfg then stErrShardingFailed
   else (header cfg.mapping e).status
+
+/-! ## sharding by tags hash
+
+`sharding.Shard` with `ShardByTagsHash` (strategy 4 here) returns `(shardByMappedTags(xxh3(key), n), true)`: apart from
+where the number comes from, ApplyMetric then behaves exactly as for a fixed shard with that number. The hash is an
+input (`Event.hashShard`, observed by the harness with the real `sharding.Shard` on the mapped key). -/
+
+/-- the configuration ApplyMetric effectively works with for event `e` -/
+def effCfg (cfg : Cfg) (e : Event) : Cfg :=
+  if cfg.metric.strategy = 4 ∧ cfg.metric.fixedKey = 0
+  then { cfg with metric := { cfg.metric with strategy := 0, shardNum := e.hashShard } }
+  else cfg
+
+/-- one event, all sharding strategies -/
+def applyEventH (cfg : Cfg) (st : Store) (e : Event) : Store := applyEvent (effCfg cfg e) st e
+
+def verdictH (cfg : Cfg) (e : Event) : Int := verdict (effCfg cfg e) e
 
 end SH.Ingest
